@@ -80,6 +80,19 @@ fn replay(args: &Args, w: &World, path: &str) -> i32 {
             let mut r = c16::Runner { w, durations_ms: vec![] };
             r.eval(&case, &mut st, false)
         }
+        "C16-markers" => {
+            let Some((fi, ri)) = find(case["family"].as_str().unwrap_or(""), case["revision"].as_str().unwrap_or("")) else { return 2 };
+            let fam = &w.fams[fi];
+            let (is_send, is_sync) = w.drivers[fi][ri].connection_markers();
+            let mut out = vec![];
+            if is_send && !(fam.send_sync || fam.send_only) {
+                out.push(fail(&[("check", "connection_marker_beyond_interface_bounds"), ("marker", "Send")], "connection is Send".into(), json!(null)));
+            }
+            if is_sync && !fam.send_sync {
+                out.push(fail(&[("check", "connection_marker_beyond_interface_bounds"), ("marker", "Sync")], "connection is Sync".into(), json!(null)));
+            }
+            out
+        }
         "C10-creation" => {
             let fname = case["family"].as_str().unwrap_or("");
             let Some(fi) = w.fams.iter().position(|f| f.name == fname) else { return 2 };
@@ -257,6 +270,37 @@ fn c16_main(args: &Args, w: &std::sync::Arc<World>, started: Instant) {
     let cases = 20 * tier_mul(args);
     if args.worker.is_some() {
         let mut shard = Shard::new(args);
+        if shard.take("marker_traits") {
+            // which interfaces' connections the library allows to be moved to / shared between
+            // threads (exhaustive over the generated interface revisions, deterministic)
+            let mut st = Stats::default();
+            for (fi, fam) in w.fams.iter().enumerate() {
+                for ri in 0..fam.revs.len() {
+                    let (is_send, is_sync) = w.drivers[fi][ri].connection_markers();
+                    st.evaluations += 1;
+                    let declared = if fam.send_sync { "Send+Sync" } else if fam.send_only { "Send" } else { "none" };
+                    st.class(&format!("markers.interface_{}.connection_{}{}", declared, if is_send { "Send" } else { "" }, if is_sync { "Sync" } else { "" }));
+                    let declared_send = fam.send_sync || fam.send_only;
+                    let declared_sync = fam.send_sync;
+                    for (marker, has, declared_m) in [("Send", is_send, declared_send), ("Sync", is_sync, declared_sync)] {
+                        if has && !declared_m {
+                            st.violations.push(Violation {
+                                signature: [("check", "connection_marker_beyond_interface_bounds"), ("marker", marker), ("interface_bounds", declared)]
+                                    .iter()
+                                    .map(|(k, v)| (k.to_string(), v.to_string()))
+                                    .collect(),
+                                replay: json!({"kind": "C16-markers", "family": fam.name, "revision": fam.revs[ri].module, "interface": render_rev(fam, ri),
+                                    "failure": format!("AbiConnection<dyn {}> is {} although the interface only declares `{}`: safe code can then {} an implementation that never promised it (concurrent calls need not equal sequential ones)", fam.name, marker, declared, if marker == "Sync" { "call concurrently into" } else { "move to another thread" })}),
+                            });
+                        }
+                    }
+                    if fam.send_only || !declared_send {
+                        st.nontrivial.insert(vcore::rng::fnv64(format!("{}/{}", fi, ri).as_bytes()));
+                    }
+                }
+            }
+            worker_emit(&st);
+        }
         for k in 0..chunks {
             let unit = format!("schedules:chunk{}", k);
             if !shard.take(&unit) {
@@ -277,7 +321,7 @@ fn c16_main(args: &Args, w: &std::sync::Arc<World>, started: Instant) {
     let rep = Report {
         args,
         level: "exploration",
-        rule: "case = (1..3 generated interfaces, N in {2,4,8,16} threads, a perturbation seed, one program per thread: blocks that create an AbiConnection for one of the interfaces (first use and cached) and issue 1..4 generated calls on it, or issue calls on a connection shared by all threads (Send + Sync interfaces); calls include methods whose closure / trait-object arguments and returned closures make the callee create further connections); each case runs in two freshly forked processes (empty ABI caches): programs one after another (sequential model) and N real threads released together by a barrier, with seeded yield/sleep/spin inside implementation methods, closures and callback objects; oracle: every result (connection creation, returned value) equals the sequential run's, all threads finish, every owned object dropped once; a watchdog expiry (100 x median case time, at least 20 s) is examined through /proc (3 samples 1 s apart) and only a confirmed deadlock is a violation; non-trivial = at least two threads start by creating a connection for the same not yet cached interface; distinct by hash(case)",
+        rule: "case = (1..3 generated interfaces, N in {2,4,8,16} threads, a perturbation seed, one program per thread: blocks that create an AbiConnection for one of the interfaces (first use and cached) and issue 1..4 generated calls on it, or issue calls on a connection shared by all threads (Send + Sync interfaces); plus, exhaustively over all generated interface revisions, whether AbiConnection<dyn Trait> is Send / Sync only when the interface declares it (compile-time answer obtained at a monomorphic call site); calls include methods whose closure / trait-object arguments and returned closures make the callee create further connections); each case runs in two freshly forked processes (empty ABI caches): programs one after another (sequential model) and N real threads released together by a barrier, with seeded yield/sleep/spin inside implementation methods, closures and callback objects; oracle: every result (connection creation, returned value) equals the sequential run's, all threads finish, every owned object dropped once; a watchdog expiry (100 x median case time, at least 20 s) is examined through /proc (3 samples 1 s apart) and only a confirmed deadlock is a violation; non-trivial = at least two threads start by creating a connection for the same not yet cached interface; distinct by hash(case)",
         assumptions: vec![
             "LOW ASSURANCE: schedules are sampled by running real threads; absence of races or deadlocks is not established".into(),
             "the perturbation decisions come from the generated seed, but the operating system scheduler is not controlled: a concurrent failure may not reproduce on replay".into(),
